@@ -467,277 +467,821 @@ def strip_session(s):
     return {k: (v if k != "chunks" else [c.hex() for c in v]) for k, v in s.items() if k not in ("model_query",)}
 
 
-# ------------------------------------------------------------------ SP over UDP and ws:// (separate, smaller searches)
+# ------------------------------------------------------------------ SP over UDP (C11B)
+# PAIR over udp:// works in the harness (the control peer steps aside) but PAIR announces REM_POST before it frees its slot, so a
+# sender connecting at once is refused now and then (C08's business): PAIR is left to the stream transports (C11_UDP_PAIR=1 adds it)
+UDP_PROTOS = [("pull", 0), ("sub", 0), ("bus", 0), ("rep", 0), ("bus", 1)] + \
+             ([("pair1", 0), ("pair0", 0)] if os.environ.get("C11_UDP_PAIR") else [])
+UDP_BIG = [1023, 1024, 1025, 2000, 9000, 64999, 65000]      # around NNG_UDP_COPYMAX (copy / loan paths) and the datagram limit
+
+
 def udp_hdr(op, typ, p0, p1, ver=1):
-    return bytes([ver, op, typ & 255, typ >> 8, p0 & 255, (p0 >> 8) & 255, p1 & 255, (p1 >> 8) & 255])
+    return bytes([ver & 255, op & 255, typ & 255, (typ >> 8) & 255, p0 & 255, (p0 >> 8) & 255, p1 & 255, (p1 >> 8) & 255])
 
 
-UDP_KINDS = ["valid", "len-beyond-datagram", "len-below-payload", "len-over-limit", "bad-version", "bad-opcode", "short", "zero",
-             "wrong-type", "random", "cack-to-listener", "creq-refresh0"]
+UDP_KINDS = ["valid", "valid", "valid", "valid-big", "len-beyond-datagram", "len-below-payload", "len-over-limit", "len-at-limit", "bad-version",
+             "bad-opcode", "short", "zero", "wrong-type-data", "random", "cack", "cack-wrong-type", "cack-refresh0", "creq-refresh",
+             "creq-refresh0", "creq-wrong-type", "disc", "unknown-peer-data", "second-sender", "refused-sender", "proto-header",
+             "mesh", "trailing-bytes"]
 
 
-def gen_udp_session(r, proto, limit):
-    """-> (kinds, datagrams): a CREQ then 1-5 DATA-ish datagrams from the same address"""
-    peer = PEER[proto]
-    dgs, kinds = [udp_hdr(1, peer, 65000, 5)], ["creq"]
-    for _ in range(r.range(1, 5)):
+def udp_limit(rm):
+    return 65000 if rm in ("0", "def") or int(rm) > 65000 else int(rm)
+
+
+def gen_udp_session(r, cfg, sid):
+    """-> dict(id, kinds, dgs=[(src, bytes)], nsrc): sender 0 connects (mostly properly), then 2-8 datagrams of every kind,
+    other senders appear (1: a second association, 2: never connects, 3: refused), most sessions end with DISC"""
+    peer, lim = PEER[cfg.proto], udp_limit(cfg.rcvmax)
+    dgs, kinds = [], []
+
+    def add(src, kind, d):
+        dgs.append((src, d)); kinds.append(kind)
+
+    def data(n=None, body=None, declared=None, typ=peer, ver=1, extra=b""):
+        pl = body if body is not None else payload(r, cfg, min(lim, 64) if n is None else n)
+        return udp_hdr(0, typ, len(pl) if declared is None else declared, 0, ver) + pl + extra
+
+    first = r.weighted([("ok", 12), ("wrong-type", 1), ("refresh0", 1), ("none", 1)])
+    if first == "ok":
+        add(0, "creq", udp_hdr(1, peer, r.choice([65000, 0, 100, 65535]), r.choice([5, 5, 1, 60, 65535])))
+    elif first == "wrong-type":
+        add(0, "creq-wrong-proto", udp_hdr(1, r.choice([peer ^ 1, 0, 0xffff, SELF[cfg.proto] if SELF[cfg.proto] != peer else 0x7777]), 65000, 5))
+    elif first == "refresh0":
+        add(0, "creq-refresh0-new", udp_hdr(1, peer, 65000, 0))
+    second_up = False
+    for _ in range(r.range(2, 8)):
         k = r.choice(UDP_KINDS)
-        n = r.choice([s_ for s_ in SIZES if s_ <= min(limit, 64)])
-        pl = r.bytes(n)
         if k == "valid":
-            d = udp_hdr(0, peer, n, 0) + pl
+            add(0, k, data())
+        elif k == "valid-big":
+            n = r.choice([x for x in UDP_BIG if x <= lim] or [lim])
+            hd = payload(r, cfg, 0)      # the protocol header only
+            add(0, k, data(body=hd + r.bytes(max(0, n - len(hd)))))
         elif k == "len-beyond-datagram":
-            d = udp_hdr(0, peer, n + r.choice([1, 2, 1000, 65535 - n]), 0) + pl
+            pl = payload(r, cfg, min(lim, 64))
+            add(0, k, data(body=pl, declared=min(65535, len(pl) + r.choice([1, 2, 1000, 65535]))))
         elif k == "len-below-payload":
-            d = udp_hdr(0, peer, r.below(n + 1), 0) + pl + r.bytes(r.below(40))
+            pl = payload(r, cfg, min(lim, 64)) + r.bytes(r.range(1, 40))
+            add(0, k, data(body=pl, declared=r.below(len(pl))))
         elif k == "len-over-limit":
-            m = min(limit, 65000) + r.choice([1, 2, 100])
-            d = udp_hdr(0, peer, min(m, 65535), 0) + r.bytes(min(m, 65535))
+            n = min(lim + r.choice([1, 2, 100]), 65535)
+            add(0, k, data(body=r.bytes(n)))
+        elif k == "len-at-limit":
+            hd = payload(r, cfg, 0)
+            add(0, k, data(body=hd + r.bytes(max(0, lim - len(hd)))))
         elif k == "bad-version":
-            d = udp_hdr(0, peer, n, 0, ver=r.choice([0, 2, 255])) + pl
+            add(0, k, data(ver=r.choice([0, 2, 0x81, 255])))
         elif k == "bad-opcode":
-            d = udp_hdr(r.choice([4, 5, 0x80, 255]), peer, n, 0) + pl
+            add(r.choice([0, 2]), k, udp_hdr(r.choice([5, 6, 0x7f, 0x80, 255]), peer, 3, 0) + b"abc")
+        elif k == "mesh":
+            add(0, k, udp_hdr(4, peer, 3, 0) + b"abc")
         elif k == "short":
-            d = (udp_hdr(0, peer, n, 0) + pl)[:r.below(8)]
+            add(r.choice([0, 0, 2]), k, data()[:r.below(8)])
         elif k == "zero":
-            d = udp_hdr(0, peer, 0, 0) + (pl if r.chance(1, 2) else b"")
-        elif k == "wrong-type":
-            d = udp_hdr(0, peer ^ 1, n, 0) + pl
-        elif k == "cack-to-listener":
-            d = udp_hdr(2, peer, 65000, 5)
+            add(0, k, udp_hdr(0, peer, 0, 0) + (r.bytes(r.range(1, 9)) if r.chance(1, 2) else b""))
+        elif k == "wrong-type-data":
+            add(0, k, data(typ=r.choice([peer ^ 1, 0, 0xffff])))
+        elif k == "trailing-bytes":
+            add(0, k, data(extra=r.bytes(r.range(1, 30))))
+        elif k == "random":
+            add(r.choice([0, 0, 2]), k, r.bytes(r.range(0, 40)))
+        elif k == "cack":
+            add(0, k, udp_hdr(2, peer, 65000, 5))
+        elif k == "cack-wrong-type":
+            add(0, k, udp_hdr(2, peer ^ 1, 65000, 5))
+        elif k == "cack-refresh0":
+            add(0, k, udp_hdr(2, peer, 65000, 0))
+        elif k == "creq-refresh":
+            add(0, k, udp_hdr(1, peer, r.choice([65000, 1, 0]), r.choice([5, 1, 65535])))
         elif k == "creq-refresh0":
-            d = udp_hdr(1, peer, 65000, 0)
-        else:
-            d = r.bytes(r.range(0, 40))
-        dgs.append(d); kinds.append(k)
-    return kinds, dgs
+            add(0, k, udp_hdr(1, peer, 65000, 0))
+        elif k == "creq-wrong-type":
+            add(0, k, udp_hdr(1, peer ^ 1, 65000, 5))
+        elif k == "disc":
+            add(r.choice([0, 0, 1, 2]), k, udp_hdr(3, peer, r.choice([0, 4, 7, 65535]), 0))
+        elif k == "unknown-peer-data":
+            add(2, k, data())
+        elif k == "second-sender":
+            if not second_up:
+                add(1, "creq-second", udp_hdr(1, peer, 65000, 5)); second_up = True
+            add(1, k, data())
+            add(0, "valid", data())
+        elif k == "refused-sender":
+            add(3, k, udp_hdr(1, r.choice([peer ^ 1, 0x0100 | peer]), 65000, 5))
+            add(3, "data-refused-sender", data())
+        elif k == "proto-header":
+            # a payload whose protocol header the socket must refuse (PAIR1 hop count / reserved bits, REP backtrace)
+            if cfg.proto == "pair1":
+                bad = r.choice([bytes([0, 0, 0, TTL + 1]), bytes([0, 0, 0, 255]), bytes([1, 0, 0, 1]), b"\x00\x00", b""]) + r.bytes(r.below(6))
+            elif cfg.proto == "rep":
+                bad = r.choice([b"", b"\x00\x00\x00", bytes([0, 0, 0, 1]) * r.range(1, 12), bytes([0, 0, 0, 1]) * (TTL + 2) + bytes([0x80, 0, 0, 1])])
+            else:
+                bad = r.bytes(r.below(5))
+            add(0, k, data(body=bad))
+    end = r.weighted([("disc", 8), ("abandon", 1)]) if cfg.proto not in ("pair0", "pair1") else "disc"
+    if end == "disc":
+        for s_ in sorted({s for s, _ in dgs}):
+            add(s_, "end-disc", udp_hdr(3, peer, 0, 0))
+    return {"id": sid, "kinds": kinds, "dgs": dgs, "nsrc": 4, "busy": False}
 
 
-def run_udp(exe, seed, tier, n_sessions, stats, viol, corr):
-    protos = ["pull", "pair0", "sub"]
-    groups = []
-    for pi, proto in enumerate(protos):
-        for rm in RCVMAX:
-            limit = 65000 if rm in ("0", "def") else int(rm)
-            sessions = []
-            for i in range(max(1, n_sessions // (len(protos) * len(RCVMAX)))):
-                r = core.Rng(seed, PROP, tier, "udp", proto, rm, i)
-                kinds, dgs = gen_udp_session(r, proto, limit)
-                sessions.append({"id": f"u{pi}{rm}.{i}", "kinds": kinds, "dgs": dgs, "fresh": 0})
-                if i % 7 == 3:   # DATA from an address that never sent a CREQ
-                    sessions.append({"id": f"u{pi}{rm}.{i}f", "kinds": ["unknown-peer"], "dgs": [udp_hdr(0, PEER[proto], 3, 0) + b"abc"], "fresh": 1})
-            cfg = Cfg("udp", proto, 0, rm, 1 << 30)
-            if proto == "pair0":
-                lines = [cfg.open_line()]
-                for s_ in sessions:
-                    # PAIR: one association at a time; the control peer steps aside
-                    lines += ["ctl_drop", f"dgram {s_['id']} {s_['fresh']} 1 " + " ".join(hx(d) for d in s_["dgs"]), "ctl_connect"]
-                continue  # the udp control barrier needs the control association: PAIR is left to the stream transports
-            lines = [cfg.open_line()] + [f"dgram {s_['id']} {s_['fresh']} 1 " + " ".join(hx(d) for d in s_["dgs"]) for s_ in sessions] + ["close"]
-            groups.append((cfg, sessions, lines, limit))
-    # model: datagram decisions
+def udp_header_truncations(r, cfg, sid):
+    """an established association, then every opcode's datagram truncated at every length 0..8 (and one byte more)"""
+    peer = PEER[cfg.proto]
+    dgs, kinds = [(0, udp_hdr(1, peer, 65000, 5))], ["creq"]
+    full = [udp_hdr(0, peer, 1, 0) + b"x", udp_hdr(1, peer, 65000, 5), udp_hdr(2, peer, 65000, 5), udp_hdr(4, peer, 0, 0), udp_hdr(3, peer, 0, 0)]
+    for f in full:
+        for k in range(0, len(f)):
+            dgs.append((0, f[:k])); kinds.append(f"truncated-op{f[1]}-{k}")
+    dgs.append((0, payload_ok(r, cfg))); kinds.append("valid")
+    dgs.append((0, udp_hdr(3, peer, 0, 0))); kinds.append("end-disc")
+    return {"id": sid, "kinds": kinds, "dgs": dgs, "nsrc": 1, "busy": False}
+
+
+def payload_ok(r, cfg):
+    pl = payload(r, cfg, 32)
+    return udp_hdr(0, PEER[cfg.proto], len(pl), 0) + pl
+
+
+def udp_model_line(cfg, s):
+    others = 0 if (cfg.proto in ("pair0", "pair1") and not s["busy"]) else 1
+    return (f"udps {0 if cfg.rcvmax in ('0', 'def') else cfg.rcvmax} {cfg.proto} {cfg.raw} {TTL} {hx(cfg.sub)} {1 if s['busy'] else 0} {others} " +
+            " ".join(f"{src}:{hx(d)}" for src, d in s["dgs"]))
+
+
+def parse_udp_model(line, n):
+    toks = line.split(" ")
+    if not toks or toks[0] != f"n={n}" or len(toks) != n + 1:
+        return None
+    out = []
+    for t in toks[1:]:
+        act, reps, adds, reaps, dl = t.split("/")
+        out.append({"act": act, "replies": [] if reps == "-" else reps.split(","), "adds": int(adds), "reaps": int(reaps),
+                    "deliver": None if dl == "-" else tuple(dl.split(":"))})
+    return out
+
+
+def udp_harness_line(s):
+    """the waits are the model's prediction; a control exchange (barrier) runs before every datagram that closes a pipe while a
+    delivery may still be on its way (a closing pipe may drop what it holds), at least every 8 datagrams (the per-pipe receive queue
+    holds 16), and at the end of the session (the harness does that one by itself)"""
+    items, pending, since = [], False, 0
+    ms = s["model"]
+    for i, ((src, d), m) in enumerate(zip(s["dgs"], ms)):
+        pending = pending or bool(m["deliver"])
+        since += 1
+        barrier = (i + 1 < len(ms) and ms[i + 1]["reaps"] > 0 and pending) or since >= 8
+        if barrier:
+            pending, since = False, 0
+        items.append(f"{src}:{len(m['replies'])}.{m['adds']}.{m['reaps']}.{1 if barrier else 0}.{1 if m['deliver'] else 0}:{hx(d)}")
+    return f"dgram {s['id']} {s['nsrc']} " + " ".join(items)
+
+
+def run_udp(exe, seed, tier, n_sessions, stats, viol, corr, replay_groups=None):
+    cfgs = [Cfg("udp", p, raw, rm, 1 << 30) for (p, raw) in UDP_PROTOS for rm in RCVMAX]
+    per = max(2, n_sessions // len(cfgs))
+    groups = list(replay_groups or [])
+    for ci, cfg in enumerate(cfgs if replay_groups is None else []):
+        sessions = [gen_udp_session(core.Rng(seed, PROP, tier, "udp", cfg.key, i), cfg, f"u{ci}.{i}") for i in range(per)]
+        sessions.insert(per // 2, udp_header_truncations(core.Rng(seed, PROP, tier, "udp-trunc", cfg.key), cfg, f"u{ci}.t"))
+        pair = cfg.proto in ("pair0", "pair1")
+        for n, s in enumerate(sessions):
+            s["busy"] = pair and n % 3 == 0
+        groups.append((cfg, sessions))
+    # ---- model
     q, owner = [], []
-    for cfg, sessions, lines, limit in groups:
-        for s_ in sessions:
-            known = bool(s_["fresh"] == 0)
-            for d in s_["dgs"]:
-                q.append(f"udp {1 if known else 0} {0 if cfg.rcvmax in ('0', 'def') else cfg.rcvmax} {hx(d)}")
-                owner.append(s_)
+    for cfg, sessions in groups:
+        for s in sessions:
+            q.append(udp_model_line(cfg, s)); owner.append(s)
     ans = ask_lean("hostile-model", q)
-    for s_ in {id(o): o for o in owner}.values():
-        s_["acts"] = []
-    for o, a in zip(owner, ans):
-        o["acts"].append(a)
-    res = run_groups(exe, [(g[0], g[1], g[2]) for g in groups], seed)
+    if len(ans) != len(q):
+        raise RuntimeError(f"hostile-model (udps) answered {len(ans)} of {len(q)} lines")
+    for s, a, line in zip(owner, ans, q):
+        s["model"] = parse_udp_model(a, len(s["dgs"]))
+        s["model_query"] = line
+        if s["model"] is None:
+            raise RuntimeError(f"hostile-model udps: {a[:200]} for {line[:200]}")
+    # ---- implementation
+    hgroups = []
+    for cfg, sessions in groups:
+        pair = cfg.proto in ("pair0", "pair1")
+        lines = [cfg.open_line()]
+        for s in sessions:
+            if pair and not s["busy"]:
+                lines.append("ctl_drop")
+            lines.append(udp_harness_line(s))
+            if pair and not s["busy"]:
+                lines.append("ctl_connect")
+        r = core.Rng(seed, PROP, tier, "udp-flood", cfg.key)
+        pl = payload(r, cfg, 16)
+        if replay_groups is None:
+            lines.append(f"dflood fl {r.range(3, 40)} {hx(udp_hdr(1, PEER[cfg.proto], 65000, 5))} {hx(udp_hdr(0, PEER[cfg.proto], len(pl), 0) + pl)} "
+                         f"{hx(udp_hdr(0, PEER[cfg.proto], 9, 0) + b'x')}")
+        lines.append("close")
+        hgroups.append((cfg, sessions, lines))
+    res = run_groups(exe, hgroups, seed)
     jq, jo = [], []
-    for ((cfg, sessions, lines), r), (_, _, _, limit) in zip(res, groups):
+    for (cfg, sessions, lines), r in res:
         out = r.lines
+        pair = cfg.proto in ("pair0", "pair1")
         if r.rc != 0 or not out or out[-1] != "bye":
             done = len(out)
-            viol.append({"kind": "sanitizer report / crash / hang on SP/UDP datagrams", "cfg": cfg.key, "rc": r.rc, "stderr": errtext(r.err),
-                         "lines": lines[:done + 1], "at": (lines[done] if done < len(lines) else lines[-1])[:300]})
+            kind = "hang (watchdog / timeout)" if (r.rc in (86, -999) or any(l.startswith("WATCHDOG") for l in out)) else \
+                   "sanitizer report / crash / unclean exit"
+            viol.append({"kind": kind, "cfg": cfg.key, "rc": r.rc, "stderr": errtext(r.err), "lines": lines[:done + 1],
+                         "at": (lines[done] if done < len(lines) else lines[-1])[:300], "all_lines": lines})
             stats["crashes"] += 1
         got = {}
         for l in out:
-            m = re.match(r"dgram (\S+) rx=(\S+) ctl=(\S+) pipes=(\S+) n=(\d+)(.*)$", l)
+            m = re.match(r"dgram (\S+) rx=(\S+) wt=(\d+) rt=(\d+) ctl=(\S+) ports=(\S+) pipes=(\S+) n=(\d+)(.*)$", l)
             if m:
-                toks = m.group(6).split()
-                got[m.group(1)] = {"rx": m.group(2), "ctl": m.group(3), "deliv": [toks[i + 3] for i in range(0, len(toks), 4)]}
-            if l.startswith("open FAIL") or (l.startswith("close") and not l.startswith("close ok")):
+                toks = m.group(9).split()
+                pipes = {} if m.group(7) == "-" else {int(a.split("@")[0]): int(a.split("@")[1]) for a in m.group(7).split(",")}
+                got[m.group(1)] = {"rx": [([] if x == "-" else x.split(",")) for x in m.group(2).split(";")], "wt": int(m.group(3)),
+                                   "rt": int(m.group(4)), "ctl": m.group(5), "ports": [int(x) for x in m.group(6).split(",")], "pipes": pipes,
+                                   "deliv": [(int(toks[i + 1]), toks[i + 2], toks[i + 3]) for i in range(0, len(toks), 4)]}
+            if l.startswith("open FAIL") or l.startswith("ctl_connect FAIL") or (l.startswith("dflood") and "ctl=ok" not in l) or \
+               (l.startswith("dgram") and "FAIL:usage" in l) or (l.startswith("close") and not l.startswith("close ok")):
                 viol.append({"kind": "control connection / listener stopped working", "cfg": cfg.key, "line": l[:300], "lines": lines})
-        for s_ in sessions:
-            g = got.get(s_["id"])
+            if l.startswith("close ok"):
+                m = re.match(r"close ok add=(\d+) rem=(\d+)", l)
+                if m and m.group(1) != m.group(2):
+                    viol.append({"kind": "socket close left pipes or the control connection behind", "cfg": cfg.key, "line": l[:200], "lines": lines})
+            if l.startswith("dflood"):
+                m = re.match(r"dflood \S+ opened=(\d+) add=(\d+)", l)
+                stats["udp_flood_senders"] = stats.get("udp_flood_senders", 0) + (int(m.group(1)) if m else 0)
+                # the flood's payloads: 16-byte protocol-shaped payload or nothing ('x' datagram lies about its length)
+                fl = [x for x in lines if x.startswith("dflood")][0].split(" ")
+                okbody = bytes.fromhex(fl[4])[8:]
+                for t in re.findall(r" D \d+ (\S+) (\S+)", l):
+                    body = b"" if t[1] == "-" else bytes.fromhex(t[1])
+                    hd = b"" if t[0] == "-" else bytes.fromhex(t[0])
+                    if not (okbody.endswith(body) and len(body) <= len(okbody)) or (udp_limit(cfg.rcvmax) < len(body)):
+                        viol.append({"kind": "a datagram payload was delivered that the SP/UDP rules forbid (flood)", "cfg": cfg.key,
+                                     "delivered": [hd.hex(), body.hex()], "lines": lines})
+        for s in sessions:
+            g = got.get(s["id"])
             if not g:
                 continue
             stats["executed"] += 1
             stats["udp_sessions"] = stats.get("udp_sessions", 0) + 1
-            for k in s_["kinds"]:
-                stats["udp_kinds"][k] = stats["udp_kinds"].get(k, 0) + 1
-            if g["ctl"] != "ok":
-                viol.append({"kind": "control connection broken by hostile datagrams", "cfg": cfg.key, "session": strip_udp(s_), "ctl": g["ctl"],
-                             "lines": [lines[0], f"dgram {s_['id']} {s_['fresh']} 1 " + " ".join(hx(d) for d in s_["dgs"]), "close"]})
-            # expected: the model's `data` payloads while the association is alive (a DISC(MSGSIZE) ends it)
-            exp, alive = [], True
-            for a, d, k in zip(s_["acts"], s_["dgs"], s_["kinds"]):
-                if not alive:
-                    break
-                if a.startswith("data "):
-                    p = a.split(" ")[1]
-                    if cfg.proto != "sub" or bytes.fromhex("" if p == "-" else p).startswith(cfg.sub):
-                        exp.append((p, d))
-                elif a == "disc-msgsize" or a.startswith("disc ") or (a.startswith("creq") and a.endswith(" 0")):
-                    alive = False
-            obs = g["deliv"]
-            stats["udp_delivered"] = stats.get("udp_delivered", 0) + len(obs)
-            if not is_subseq(obs, [p for p, _ in exp]):
-                # find the datagram for the judge's record: none allows it
-                bad = next(o for o in obs if o not in [p for p, _ in exp])
-                viol.append({"kind": "a datagram payload was delivered that the SP/UDP rules forbid", "cfg": cfg.key, "session": strip_udp(s_),
-                             "delivered": obs[:8], "model": [p for p, _ in exp][:8], "bad": bad,
-                             "lines": [lines[0], f"dgram {s_['id']} {s_['fresh']} 1 " + " ".join(hx(d) for d in s_["dgs"]), "close"]})
-            elif obs != [p for p, _ in exp]:
-                corr.append({"what": "udp deliveries differ from the model", "cfg": cfg.key, "session": strip_udp(s_), "model": [p for p, _ in exp][:8],
-                             "impl": obs[:8]})
-            for o in obs:
-                dd = next((d for p, d in exp if p == o), None)
-                if dd is not None:
-                    jq.append(f"udp 1 {0 if cfg.rcvmax in ('0', 'def') else cfg.rcvmax} {hx(dd)} => D {o}")
-                    jo.append((cfg, s_))
-    for a, (cfg, s_) in zip(ask_lean("hostile-judge", jq), jo):
+            stats["udp_datagrams"] = stats.get("udp_datagrams", 0) + len(s["dgs"])
+            for k, m in zip(s["kinds"], s["model"]):
+                h = stats["udp_kinds"].setdefault(k, {})
+                h[m["act"]] = h.get(m["act"], 0) + 1
+            hist = stats["by"].setdefault(f"udp|{cfg.proto}{'-raw' if cfg.raw else ''}|session", [0, 0, 0, 0])
+            hist[0] += 1
+            hist[1 + (0 if any(m["deliver"] for m in s["model"]) else (2 if any(m["reaps"] for m in s["model"]) else 1))] += 1
+            mini = [lines[0]] + (["ctl_drop"] if pair and not s["busy"] else []) + [udp_harness_line(s), "close"]
+            anomaly = pair and s["busy"] and (g["deliv"] or g["ctl"] != "ok")
+            if anomaly:
+                stats["pair_second_connection_anomalies"] = stats.get("pair_second_connection_anomalies", 0) + 1
+            elif g["ctl"] != "ok":
+                viol.append({"kind": "control connection broken by a hostile session", "cfg": cfg.key, "session": strip_udp(s), "ctl": g["ctl"],
+                             "lines": mini})
+            elif g["rt"]:
+                # loopback does not lose datagrams: the control peer's message sat in nng until it was sent again
+                viol.append({"kind": "a message of the well-behaved control peer was not delivered until it was repeated", "cfg": cfg.key,
+                             "session": strip_udp(s), "repeated": g["rt"], "lines": mini})
+            # attribution: pipe -> peer port -> sender
+            port_src = {p: i for i, p in enumerate(g["ports"])}
+            obs = {}
+            foreign = []
+            for pipe, h_, b_ in g["deliv"]:
+                src = port_src.get(g["pipes"].get(pipe))
+                if src is None:
+                    foreign.append((pipe, h_, b_))
+                else:
+                    obs.setdefault(src, []).append((h_, b_))
+            if foreign:
+                viol.append({"kind": "delivery from a pipe no session owns", "cfg": cfg.key, "session": strip_udp(s), "deliveries": foreign[:4],
+                             "lines": mini})
+            stats["udp_delivered"] = stats.get("udp_delivered", 0) + len(g["deliv"])
+            exp = {}
+            for (src, _), m in zip(s["dgs"], s["model"]):
+                if m["deliver"]:
+                    exp.setdefault(src, []).append((m["deliver"][0] or "-", short_body(m["deliver"][1] or "-")))
+            if cfg.raw and cfg.proto == "bus":
+                ok_pipe = all(len(h_) >= 8 and g["pipes"].get(int(h_[:8], 16)) == g["ports"][src] for src, ds in obs.items() for h_, _ in ds)
+                obs = {src: [("00000000" + h_[8:], b_) for h_, b_ in ds] for src, ds in obs.items()}
+                if not ok_pipe:
+                    corr.append({"what": "raw header does not start with the id of the delivering pipe", "cfg": cfg.key, "session": strip_udp(s)})
+            if not cfg.raw:
+                exp = {k: [("-", b_) for _, b_ in v] for k, v in exp.items()}
+                obs = {k: [("-", b_) for _, b_ in v] for k, v in obs.items()}
+            exact = not pair
+            if g["deliv"]:
+                jqry = s["model_query"].split(" ")
+                jqry[6] = "0"
+                dl = []
+                for pipe, h_, b_ in g["deliv"]:
+                    src = port_src.get(g["pipes"].get(pipe))
+                    if src is not None:
+                        dl.append(f"D {src} {h_} {b_}")
+                jq.append(" ".join(jqry) + " => 0 " + " ".join(dl)); jo.append((cfg, s, mini))
+            if anomaly:
+                continue
+            for src in sorted(set(exp) | set(obs)):
+                e, o = exp.get(src, []), obs.get(src, [])
+                if exact and e != o:
+                    corr.append({"what": "udp deliveries differ from the model", "cfg": cfg.key, "session": strip_udp(s), "sender": src,
+                                 "model": e[:8], "impl": o[:8]})
+                elif not exact and not is_subseq(o, e):
+                    corr.append({"what": "udp deliveries (PAIR) are not a subsequence of the model's", "cfg": cfg.key, "session": strip_udp(s),
+                                 "sender": src, "model": e[:8], "impl": o[:8]})
+                elif not exact and o != e:
+                    stats["lost_on_disconnect"] = stats.get("lost_on_disconnect", 0) + 1
+            # what nng answered to every sender
+            mrx = [[] for _ in range(s["nsrc"])]
+            for (src, _), m in zip(s["dgs"], s["model"]):
+                mrx[src] += m["replies"]
+            if mrx != g["rx"][:len(mrx)] or g["wt"]:
+                corr.append({"what": "udp answers (CACK / DISC reasons) or pipe events differ from the model", "cfg": cfg.key,
+                             "session": strip_udp(s), "model": mrx, "impl": g["rx"], "timed_out_waits": g["wt"]})
+    for a, (cfg, s, mini), q_ in zip(ask_lean("hostile-judge", jq), jo, jq):
         stats["judged"] += 1
         if a != "ok":
-            viol.append({"kind": "the application received something the specification forbids (udp)", "judge": a, "cfg": cfg.key,
-                         "session": strip_udp(s_), "lines": []})
+            viol.append({"kind": "the application received something the specification forbids", "judge": a, "cfg": cfg.key,
+                         "session": strip_udp(s), "lines": mini, "judge_query": q_[:2000]})
     return len(groups)
 
 
-def strip_udp(s_):
-    return {"id": s_["id"], "kinds": s_["kinds"], "datagrams": [d.hex() for d in s_["dgs"]], "fresh": s_["fresh"], "model": s_.get("acts")}
+def strip_udp(s):
+    return {"id": s["id"], "kinds": s["kinds"], "datagrams": [[src, d.hex()] for src, d in s["dgs"]], "nsrc": s["nsrc"],
+            "busy": s["busy"], "model": [f"{m['act']}/{','.join(m['replies']) or '-'}/{m['adds']}/{m['reaps']}" for m in s.get("model") or []]}
 
 
+# ------------------------------------------------------------------ ws:// (C11B)
+WS_PROTOS = [("pull", 0), ("sub", 0), ("bus", 0), ("rep", 0), ("bus", 1), ("rep", 1)]    # PAIR over ws://: not yet (see integration/C11B.md)
+WS_NAME = {"pair0": "pair", "pair1": "pair1", "rep": "rep", "req": "req", "sub": "sub", "pull": "pull", "bus": "bus",
+           "surveyor": "surveyor", "respondent": "respondent"}
 WS_KEY = b"dGhlIHNhbXBsZSBub25jZQ=="
+WS_HOST = b"127.0.0.1"
+HTTP_BUF = 8160
 
 
-def ws_upgrade(proto, **kw):
-    name = {"pull": "pull", "rep": "rep", "sub": "sub", "bus": "bus"}[proto]
-    h = [b"GET / HTTP/1.1", b"Host: 127.0.0.1", b"Upgrade: websocket", b"Connection: Upgrade", b"Sec-WebSocket-Key: " + WS_KEY,
-         b"Sec-WebSocket-Version: 13", b"Sec-WebSocket-Protocol: " + kw.get("sub", name + ".sp.nanomsg.org").encode()]
-    return b"\r\n".join(h) + b"\r\n\r\n"
+def ws_sub(proto):
+    return (WS_NAME[proto] + ".sp.nanomsg.org").encode()
 
 
-def ws_frame(pl, op=2, fin=1, masked=True, declared=None, form=None):
+def ws_head(proto, line=b"GET / HTTP/1.1", drop=(), replace=None, extra=(), eol=b"\r\n"):
+    """an upgrade request; drop: header names to leave out; replace: {name: value}; extra: [(name, value)] appended"""
+    hs = [(b"Host", WS_HOST), (b"Upgrade", b"websocket"), (b"Connection", b"Upgrade"), (b"Sec-WebSocket-Key", WS_KEY),
+          (b"Sec-WebSocket-Version", b"13"), (b"Sec-WebSocket-Protocol", ws_sub(proto))]
+    out = [line]
+    for n, v in hs:
+        if n in drop:
+            continue
+        if replace and n in replace:
+            v = replace[n]
+        out.append(n + b": " + v)
+    for n, v in extra:
+        out.append(n + b": " + v if v is not None else n)
+    return eol.join(out) + eol + eol
+
+
+def ws_frame(pl, op=2, fin=1, masked=True, declared=None, form=None, rsv=0, key=b"\x12\x34\x56\x78"):
     n = len(pl) if declared is None else declared
-    b0 = (0x80 if fin else 0) | op
+    b0 = (0x80 if fin else 0) | (rsv << 4) | op
     m = 0x80 if masked else 0
     if form == 16 or (form is None and 126 <= n < 65536):
-        h = bytes([b0, m | 126]) + n.to_bytes(2, "big")
+        h = bytes([b0, m | 126]) + (n & 0xffff).to_bytes(2, "big")
     elif form == 64 or (form is None and n >= 65536):
         h = bytes([b0, m | 127]) + n.to_bytes(8, "big")
     else:
-        h = bytes([b0, m | n])
+        h = bytes([b0, m | (n & 127)])
     if masked:
-        key = b"\x12\x34\x56\x78"
         return h + key + bytes(x ^ key[i % 4] for i, x in enumerate(pl))
     return h + pl
 
 
-def run_ws(exe, seed, tier, n_sessions, stats, viol, corr):
-    """ws://: raw HTTP upgrade + frames.  Expectations are by construction of each session (the frame rules are C16's
-    theorems); observables as for the stream transports."""
+def lean_ws_frames(msgs):
+    """the C16 Lean frame encoder (client role) through the driver: msgs = [(payload, fragsize, seed)] -> [frames bytes]"""
+    if not msgs:
+        return []
+    lines = []
+    for pl, frag, sd in msgs:
+        lines.append(f"cfg 0 0 0 0 0 0 {frag} 1099511627776")
+        lines.append(f"send - {hx(pl)} {sd}")
+    parts = core.chunked(list(range(len(msgs))), core.NCPU)
+
+    def work(idx):
+        sub = []
+        for i in idx:
+            sub += lines[2 * i:2 * i + 2]
+        r = core.run_stream(lean.driver_cmd("ws-model"), "\n".join(sub) + "\n", timeout=900)
+        return r.lines
+
+    out = []
+    for idx, ls in zip(parts, core.parallel_map(work, parts)):
+        if len(ls) != 2 * len(idx):
+            raise RuntimeError(f"ws-model answered {len(ls)} of {2 * len(idx)} lines")
+        for k in range(len(idx)):
+            m = re.match(r"send rv=0 n=\d+ closed=0 ev=(\S+)$", ls[2 * k + 1])
+            if not m:
+                raise RuntimeError(f"ws-model: {ls[2 * k + 1][:200]}")
+            out.append(b"".join(bytes.fromhex(t[2:]) for t in m.group(1).split(",") if t.startswith("t:")))
+    return out
+
+
+WS_HTTP_KINDS = ["bad-method", "bad-version", "missing-header", "wrong-header", "header-forms", "oversize-head", "content-length",
+                 "transfer-encoding", "uri", "host", "control-char", "bare-lf", "no-colon", "leading-blank", "two-requests", "garbage"]
+WS_FRAME_KINDS = ["valid", "valid", "fragments", "unmasked", "rsv-bit", "reserved-op", "nonminimal", "ctl-over-125", "cont-without-start",
+                  "data-inside-fragments", "oversize-frame", "oversize-message", "huge-len", "over-maxframe", "text", "ping", "pong", "close-then-data",
+                  "cut-mid-frame", "sp-on-ws", "proto-header", "ping-between-fragments", "unfinished-ping"]
+
+
+def gen_ws_session(r, cfg, sid):
+    """-> dict(id, kind, mode, data (bytes, to be cut), want_frames: [(payload, fragsize, seed)] placeholders)"""
+    proto, lim = cfg.proto, cfg.rcvnum
+    up = ws_head(proto)
+    small = min(lim, 64) if lim else 64
+    mode = r.weighted([("h", 6), ("x", 1), ("i", 2)])
+    parts = []          # bytes or ("lean", payload, fragsize, seed)
+
+    def valid(n=None, frag=0):
+        return ("lean", payload(r, cfg, small if n is None else n), frag, r.below(2 ** 32))
+
+    if r.chance(2, 5):
+        kind = r.choice(WS_HTTP_KINDS)
+        tail = [valid()]
+        if kind == "bad-method":
+            meth = r.choice([b"POST", b"HEAD", b"get", b"PUT", b"G", b"OPTIONS", b"GET" * 12, b"\xc3\xa9"])
+            parts = [ws_head(proto, line=meth + b" / HTTP/1.1")] + tail
+        elif kind == "bad-version":
+            v = r.choice([b"HTTP/1.0", b"HTTP/2", b"HTTP/0.9", b"HTTP/1.2", b"http/1.1", b"HTTP/1.1 ", b"", b"HTTP/3", b"XTTP/1.1"])
+            parts = [ws_head(proto, line=b"GET / " + v if v else b"GET /")] + tail
+        elif kind == "missing-header":
+            h = r.choice([b"Host", b"Upgrade", b"Connection", b"Sec-WebSocket-Key", b"Sec-WebSocket-Version", b"Sec-WebSocket-Protocol"])
+            parts = [ws_head(proto, drop=(h,))] + tail
+        elif kind == "wrong-header":
+            h, v = r.choice([(b"Upgrade", b"h2c"), (b"Upgrade", b"websocketx"), (b"Upgrade", b""), (b"Connection", b"keep-alive"),
+                             (b"Connection", b"close"), (b"Connection", b"Upgrade, close"), (b"Connection", b"upgradeX"),
+                             (b"Sec-WebSocket-Key", b"short"), (b"Sec-WebSocket-Key", WS_KEY + b"A"), (b"Sec-WebSocket-Key", b""),
+                             (b"Sec-WebSocket-Version", b"12"), (b"Sec-WebSocket-Version", b"13 "), (b"Sec-WebSocket-Version", b"013"),
+                             (b"Sec-WebSocket-Version", b"8, 13"), (b"Sec-WebSocket-Protocol", b"x.sp.nanomsg.org"),
+                             (b"Sec-WebSocket-Protocol", ws_sub("req" if proto != "req" else "rep")), (b"Sec-WebSocket-Protocol", b""),
+                             (b"Sec-WebSocket-Protocol", ws_sub(proto) + b", chat"), (b"Sec-WebSocket-Protocol", ws_sub(proto)[:-1]),
+                             (b"Sec-WebSocket-Protocol", ws_sub(proto).upper())])
+            parts = [ws_head(proto, replace={h: v})] + tail
+        elif kind == "header-forms":
+            # forms a server may or may not accept: the model says which
+            rep = r.choice([{b"Upgrade": b"WebSocket"}, {b"Connection": b"keep-alive, Upgrade"}, {b"Connection": b"keep-alive,Upgrade"},
+                            {b"Connection": b"UPGRADE"}, {b"Upgrade": b"websocket, foo"}, {b"Upgrade": b"foo websocket"},
+                            {b"Host": WS_HOST + b":80"}, {b"Connection": b"Upgrade   "}, {b"Upgrade": b"  websocket"}])
+            parts = [ws_head(proto, replace=rep, extra=[(b"X-" + bytes([65 + r.below(26)]), b"v")])] + tail
+        elif kind == "oversize-head":
+            base = len(ws_head(proto, extra=[(b"X-Pad", b"")]))
+            total = HTTP_BUF + r.choice([-3, -2, -1, 0, 1, 2, 3, 100, 5000])
+            where = r.choice(["header", "uri", "many"])
+            if where == "header":
+                parts = [ws_head(proto, extra=[(b"X-Pad", b"a" * max(0, total - base))])] + tail
+            elif where == "uri":
+                parts = [ws_head(proto, line=b"GET /" + b"a" * max(0, total - len(up)) + b" HTTP/1.1")] + tail
+            else:
+                k = max(1, (total - len(up)) // 12)
+                parts = [ws_head(proto, extra=[(b"X-%05d" % i, b"abc") for i in range(k)])] + tail
+        elif kind == "content-length":
+            v = r.choice([b"0", b"5", b"5x", b"abc", b"99999999999999999999", b"1048577", b" 3"])
+            body = r.choice([b"", b"hello", b"hello!!"])
+            parts = [ws_head(proto, extra=[(b"Content-Length", v)]) + body, up] + tail
+        elif kind == "transfer-encoding":
+            parts = [ws_head(proto, extra=[(b"Transfer-Encoding", r.choice([b"chunked", b"identity", b""]))]) + b"0\r\n\r\n"] + tail
+        elif kind == "uri":
+            u = r.choice([b"/x", b"*", b"/?a=b", b"//", b"/.", b"/%2f", b"http://127.0.0.1/", b"/a/../", b"", b"/\xff", b"/%zz", b"/#f"])
+            parts = [ws_head(proto, line=b"GET " + u + b" HTTP/1.1")] + tail
+        elif kind == "host":
+            hv = r.choice([b"localhost", b"example.com", b"127.0.0.1:8080", b"127.0.0.2", b"127.0.0.1:", b""])
+            if hv in (b"127.0.0.1:", b""):
+                hv = b"example.org"      # stay within the Host values the model describes
+            parts = [ws_head(proto, replace={b"Host": hv})] + tail
+        elif kind == "control-char":
+            b_ = bytearray(up); i = r.below(len(b_) - 4); b_[i] = r.choice([0, 1, 7, 0x0b, 0x1f, 0x7f, 0x80, 0xff, 0x0d])
+            parts = [bytes(b_)] + tail
+        elif kind == "bare-lf":
+            parts = [ws_head(proto, eol=b"\n")] + tail
+        elif kind == "no-colon":
+            parts = [ws_head(proto, extra=[(b"NoColonHere", None)])] + tail
+        elif kind == "leading-blank":
+            parts = [b"\r\n" * r.range(1, 2) + up] + tail
+        elif kind == "two-requests":
+            first = r.choice([ws_head(proto, line=b"GET /nothing HTTP/1.1"), ws_head(proto, drop=(b"Upgrade",)),
+                              ws_head(proto, line=b"GET /nothing HTTP/1.1", replace={b"Connection": b"close"}),
+                              ws_head(proto, line=b"GET /nothing HTTP/1.0"), ws_head(proto, line=b"PUT / HTTP/1.1"),
+                              ws_head(proto, line=b"GET /n HTTP/1.1", extra=[(b"Content-Length", b"4")]) + b"abcd"])
+            parts = [first, up] + tail
+        else:
+            parts = [r.choice([b"\x00SP\x00\x00\x50\x00\x00", r.bytes(64), b"GET\r\n\r\n", b"\r\n\r\n", b"GET / HTTP/1.1\r\n\r\n",
+                               handshake(PEER[proto]) + frame(Cfg("tcp", proto, 0, cfg.rcvmax, 1 << 30), b"abc")])]
+        kind = "http-" + kind
+    else:
+        kind = r.choice(WS_FRAME_KINDS)
+        a, b = valid(), valid()
+        pa = payload(r, cfg, small)
+        parts = [up]
+        if kind == "valid":
+            parts += [valid() for _ in range(r.range(1, 4))]
+        elif kind == "fragments":
+            parts += [a, valid(frag=r.choice([1, 2, 3, 7, 16])), b]
+        elif kind == "unmasked":
+            parts += [a, ws_frame(pa, masked=False), b]
+        elif kind == "rsv-bit":
+            parts += [a, ws_frame(pa, rsv=r.choice([1, 2, 4])), b]
+        elif kind == "reserved-op":
+            parts += [a, ws_frame(pa, op=r.choice([3, 4, 5, 6, 7, 11, 12, 15])), b]
+        elif kind == "nonminimal":
+            parts += [a, ws_frame(pa, form=r.choice([16, 64])), b]
+        elif kind == "ctl-over-125":
+            parts += [a, ws_frame(r.bytes(r.choice([126, 127, 200])), op=r.choice([9, 10, 8])), b]
+        elif kind == "cont-without-start":
+            parts += [a, ws_frame(pa, op=0, fin=r.below(2)), b]
+        elif kind == "data-inside-fragments":
+            parts += [ws_frame(pa[:2], fin=0), ws_frame(pa[2:], op=2), b]
+        elif kind == "oversize-frame":
+            n = (lim if 0 < lim <= 2 ** 16 else 70000) + r.choice([1, 2, 100]) if lim else 70000
+            hd = payload(r, cfg, 0)
+            parts += [a, ws_frame(hd + r.bytes(n - len(hd))), b]
+        elif kind == "oversize-message":
+            n = (lim if 0 < lim <= 2 ** 16 else 3000)
+            hd = payload(r, cfg, 0)
+            body = hd + r.bytes(n + r.choice([0, 1, 1, 5]) - len(hd))
+            k = r.range(1, max(1, len(body) - 1))
+            parts += [a, ws_frame(body[:k], fin=0), ws_frame(body[k:], op=0, fin=1), b]
+        elif kind == "huge-len":
+            parts += [a, ws_frame(b"", declared=r.choice([2 ** 63, 2 ** 64 - 1, 2 ** 62, 2 ** 40, 2 ** 32]), form=64), b]
+        elif kind == "over-maxframe":
+            parts += [a, ws_frame(b"", declared=(1 << 20) + r.choice([0, 1, 1000]), form=64)[:r.choice([14, 14, 20])]]
+        elif kind == "text":
+            parts += [a, ws_frame(pa, op=1), b]
+        elif kind == "ping":
+            parts += [ws_frame(r.bytes(r.choice([0, 1, 5, 125])), op=9), a]
+        elif kind == "pong":
+            parts += [ws_frame(r.bytes(r.choice([0, 3, 125])), op=10), a]
+        elif kind == "close-then-data":
+            parts += [a, ws_frame(r.choice([b"", b"\x03\xe8", b"\x03\xe8bye", b"\x00"]), op=8), b]
+        elif kind == "cut-mid-frame":
+            f = ws_frame(pa + b"tail")
+            parts += [a, f[:r.range(1, len(f) - 1)]]
+            mode = r.choice(["h", "x"])
+        elif kind == "sp-on-ws":
+            parts += [handshake(PEER[proto]) + frame(Cfg("tcp", proto, 0, cfg.rcvmax, 1 << 30), pa)]
+        elif kind == "proto-header":
+            if proto == "pair1":
+                bad = r.choice([bytes([0, 0, 0, TTL + 1]), bytes([0, 0, 0, 255]), bytes([1, 0, 0, 1]), b"\x00\x00", b""]) + r.bytes(r.below(6))
+            elif proto == "rep":
+                bad = r.choice([b"", b"\x00\x00\x00", bytes([0, 0, 0, 1]) * r.range(1, 12), bytes([0, 0, 0, 1]) * (TTL + 2) + bytes([0x80, 0, 0, 1])])
+            else:
+                bad = r.bytes(r.below(5))
+            parts += [a, ws_frame(bad), b]
+        elif kind == "ping-between-fragments":
+            k = r.range(0, len(pa))
+            parts += [ws_frame(pa[:k], fin=0), ws_frame(r.bytes(r.choice([0, 4, 125])), op=9), ws_frame(pa[k:], op=0), b]
+        elif kind == "unfinished-ping":
+            parts += [a, ws_frame(b"abc", op=9, fin=0), b]
+    return {"id": sid, "kind": kind, "mode": mode, "parts": parts, "busy": False}
+
+
+def ws_truncations(r, cfg, base_id, what):
+    """a valid upgrade (what='head': followed by one small message) or a small valid frame session cut at EVERY byte offset"""
+    proto = cfg.proto
+    up = ws_head(proto)
+    small = min(cfg.rcvnum, 24) if cfg.rcvnum else 24
+    tail = [("lean", payload(r, cfg, small), r.choice([0, 0, 3]), r.below(2 ** 32)) for _ in range(1 if what == "head" else 2)]
+    return {"id": base_id, "kind": f"truncate-{what}", "mode": "h", "parts": [up] + tail, "busy": False, "every_offset": what}
+
+
+def ws_resolve(sessions_all):
+    """replace the ("lean", ...) placeholders by frames from the Lean encoder; expand the every-offset sessions"""
+    want, where = [], []
+    for s in sessions_all:
+        for i, p in enumerate(s["parts"]):
+            if isinstance(p, tuple):
+                want.append((p[1], p[2], p[3])); where.append((s, i))
+    for (s, i), f in zip(where, lean_ws_frames(want)):
+        s["parts"][i] = f
+
+
+def ws_model_line(cfg, s):
+    return (f"wss {cfg.rcvnum} {cfg.proto} {cfg.raw} {TTL} {hx(cfg.sub)} {1 if s['busy'] else 0} {WS_HOST.hex()} {ws_sub(cfg.proto).hex()} " +
+            " ".join(hx(c) for c in s["chunks"]))
+
+
+def parse_ws_model(line):
+    m = re.match(r"st=(\S+) up=(\d) sclose=(\d) wsclosed=(\d) tx=(\S+) tp=(\d+) pclose=(\d) n=(\d+)(.*)$", line)
+    if not m:
+        return None
+    toks = m.group(9).split()
+    return {"st": [] if m.group(1) == "-" else [int(x) for x in m.group(1).split(",")], "up": m.group(2) == "1", "sclose": m.group(3) == "1",
+            "wsclosed": m.group(4) == "1", "tx": [] if m.group(5) == "-" else m.group(5).split(","), "tp": int(m.group(6)),
+            "pclose": m.group(7) == "1", "deliv": [(toks[i + 1], toks[i + 2]) for i in range(0, len(toks), 3)]}
+
+
+def parse_http_responses(raw):
+    """-> (statuses, frames after a 101 as list of (opcode, payload))"""
+    sts, frames, i = [], [], 0
+    while True:
+        m0 = re.match(rb"HTTP/[0-9.]+ (\d{3})", raw[i:i + 20])
+        if not m0:
+            break
+        st = int(m0.group(1))
+        j = raw.find(b"\r\n\r\n", i)
+        if j < 0:
+            sts.append(st)
+            return sts, frames
+        head = raw[i:j].decode("latin-1")
+        sts.append(st)
+        m = re.search(r"(?im)^content-length:\s*(\d+)", head)
+        i = j + 4 + (int(m.group(1)) if m else 0)
+        if st == 101:
+            while i + 2 <= len(raw):
+                op, n = raw[i] & 15, raw[i + 1] & 127
+                i += 2
+                if n == 126:
+                    n = int.from_bytes(raw[i:i + 2], "big"); i += 2
+                elif n == 127:
+                    n = int.from_bytes(raw[i:i + 8], "big"); i += 8
+                frames.append((op, raw[i:i + n])); i += n
+            break
+    return sts, frames
+
+
+def run_ws(exe, seed, tier, n_sessions, n_trunc, stats, viol, corr, replay_groups=None):
+    cfgs = [Cfg("ws", p, raw, rm, 1 << 30) for (p, raw) in WS_PROTOS for rm in RCVMAX]
     groups = []
-    for proto in ("pull", "bus"):
-        for rm in RCVMAX:
-            cfg = Cfg("ws", proto, 0, rm, 1 << 30)
-            lim = cfg.rcvnum
-            sessions = []
-            up = ws_upgrade(proto)
-            per = max(4, n_sessions // 6)
-            for i in range(per):
-                r = core.Rng(seed, PROP, tier, "ws", proto, rm, i)
-                kind = r.choice(["valid", "unmasked", "oversize", "huge-len", "reserved-op", "rsv-bit", "nonminimal", "cont-without-start",
-                                 "http-garbage", "bad-subprotocol", "truncated-upgrade", "truncated-frame", "fragments", "ping", "sp-on-ws"])
-                a, b = r.bytes(r.choice([0, 1, 5, 31, 64 if lim == 64 else 63])), r.bytes(r.choice([1, 2, 17]))
-                exp = None          # None: nothing may be delivered
-                if kind == "valid":
-                    data, exp = up + ws_frame(a) + ws_frame(b), [a, b]
-                elif kind == "unmasked":
-                    data, exp = up + ws_frame(a) + ws_frame(b, masked=False) + ws_frame(a), [a]
-                elif kind == "oversize":
-                    big = r.bytes((lim if 0 < lim < 2 ** 20 else 2 ** 20) + 1) if lim else r.bytes(70000)
-                    data, exp = up + ws_frame(a) + ws_frame(big) + ws_frame(b), ([a] if 0 < lim < 2 ** 20 else [a, big, b] if lim == 0 else [a])
-                    if lim >= 2 ** 20:
-                        data, exp = up + ws_frame(a) + ws_frame(b), [a, b]
-                elif kind == "huge-len":
-                    data, exp = up + ws_frame(a) + ws_frame(b"", declared=r.choice([2 ** 63, 2 ** 64 - 1, 2 ** 62, 2 ** 40]), form=64), [a]
-                elif kind == "reserved-op":
-                    data, exp = up + ws_frame(a) + ws_frame(b, op=r.choice([3, 4, 5, 6, 7, 11, 15])) + ws_frame(a), [a]
-                elif kind == "rsv-bit":
-                    f = bytearray(ws_frame(b)); f[0] |= r.choice([0x40, 0x20, 0x10])
-                    data, exp = up + bytes(f) + ws_frame(a), []
-                elif kind == "nonminimal":
-                    data, exp = up + ws_frame(b, form=r.choice([16, 64])) + ws_frame(a), []
-                elif kind == "cont-without-start":
-                    data, exp = up + ws_frame(b, op=0) + ws_frame(a), []
-                elif kind == "http-garbage":
-                    data, exp = r.choice([b"GET / HTTP/1.1\r\n\r\n", b"POST /x HTTP/9.9\r\nContent-Length: 99999999999999999999\r\n\r\n",
-                                          b"\x00SP\x00\x00\x50\x00\x00", r.bytes(64), b"GET / HTTP/1.1\r\n" + b"X: " + b"a" * 9000 + b"\r\n\r\n"]), []
-                elif kind == "bad-subprotocol":
-                    data, exp = ws_upgrade(proto, sub=r.choice(["rep.sp.nanomsg.org", "x", "", "pull.sp.nanomsg.org ,x"])) + ws_frame(a), None
-                    if proto != "pull":
-                        exp = None
-                elif kind == "truncated-upgrade":
-                    data, exp = up[:r.below(len(up))], []
-                elif kind == "truncated-frame":
-                    f = ws_frame(b)
-                    data, exp = up + ws_frame(a) + f[:r.below(len(f))], [a]
-                elif kind == "fragments":
-                    data, exp = up + ws_frame(a, fin=0) + ws_frame(b"", op=9) + ws_frame(b, op=0, fin=1), [a + b]
-                    if 0 < lim < len(a + b):
-                        exp = []
-                elif kind == "ping":
-                    data, exp = up + ws_frame(b, op=9) + ws_frame(a), [a]
+    if replay_groups is not None:
+        groups = replay_groups
+    else:
+        per = max(2, n_sessions // len(cfgs))
+        for ci, cfg in enumerate(cfgs):
+            sessions = [gen_ws_session(core.Rng(seed, PROP, tier, "ws", cfg.key, i), cfg, f"w{ci}.{i}") for i in range(per)]
+            groups.append((cfg, sessions))
+        rt = core.Rng(seed, PROP, tier, "ws-trunc")
+        for k in range(n_trunc):
+            cfg = cfgs[(k * 7 + rt.below(3)) % len(cfgs)]
+            groups.append((cfg, [ws_truncations(core.Rng(seed, PROP, tier, "ws-trunc", k), cfg, f"wt{k}", "head" if k % 2 == 0 else "frames")]))
+        ws_resolve([s for _, ss in groups for s in ss])
+        # cut into chunks; expand every-offset sessions
+        for gi, (cfg, sessions) in enumerate(groups):
+            out = []
+            for n, s in enumerate(sessions):
+                data = b"".join(s["parts"])
+                r = core.Rng(seed, PROP, tier, "ws-cut", s["id"])
+                if s.get("every_offset"):
+                    lo = 0 if s["every_offset"] == "head" else len(s["parts"][0])
+                    hi = len(s["parts"][0]) + 8 if s["every_offset"] == "head" else len(data)
+                    for k in range(lo, min(hi, len(data)) + 1):
+                        out.append({"id": f"{s['id']}.{k}", "kind": s["kind"], "mode": "x" if k % 7 == 6 else "h",
+                                    "chunks": cut(r, data[:k], 1 if k % 3 == 0 else 0), "busy": False, "offset": k, "of": len(data)})
                 else:
-                    data, exp = up + handshake(PEER[proto]) + frame(Cfg("tcp", proto, 0, rm, 1 << 30), a), None
-                sessions.append({"id": f"w{proto}{rm}.{i}", "kind": kind, "mode": r.choice(["h", "h", "i"]), "chunks": cut(r, data),
-                                 "exp": exp, "busy": False})
-            lines = [cfg.open_line()] + [f"sess {s_['id']} {s_['mode']} 0 " + " ".join(hx(c) for c in s_["chunks"]) for s_ in sessions] + \
-                    [f"flood fl 12 {hx(up[:40])}", "close"]
-            groups.append((cfg, sessions, lines))
-    res = run_groups(exe, groups, seed)
+                    s2 = dict(s); del s2["parts"]
+                    s2["chunks"] = cut(r, data)
+                    out.append(s2)
+            pair = cfg.proto in ("pair0", "pair1")
+            for n, s in enumerate(out):
+                s["busy"] = pair and n % 3 == 0
+            groups[gi] = (cfg, out)
+    # ---- model
+    q, owner = [], []
+    for cfg, sessions in groups:
+        for s in sessions:
+            q.append(ws_model_line(cfg, s)); owner.append(s)
+    ans = ask_lean("hostile-model", q)
+    if len(ans) != len(q):
+        raise RuntimeError(f"hostile-model (wss) answered {len(ans)} of {len(q)} lines")
+    for s, a, line in zip(owner, ans, q):
+        s["model"] = parse_ws_model(a)
+        s["model_query"] = line
+        if s["model"] is None:
+            raise RuntimeError(f"hostile-model wss: {a[:200]} for {line[:200]}")
+    # ---- implementation
+    hgroups = []
+    for cfg, sessions in groups:
+        pair = cfg.proto in ("pair0", "pair1")
+        lines = [cfg.open_line()]
+        for s in sessions:
+            if pair and not s["busy"]:
+                lines.append("ctl_drop")
+            exp = "1" if s["model"]["up"] and not s["model"]["pclose"] and not s["busy"] else "0"
+            lines.append(f"sess {s['id']} {s['mode']} {exp} " + " ".join(hx(c) for c in s["chunks"]))
+            if pair and not s["busy"]:
+                lines.append("ctl_connect")
+        if replay_groups is None:
+            r = core.Rng(seed, PROP, tier, "ws-flood", cfg.key)
+            up = ws_head(cfg.proto)
+            lines.append(f"flood fl {r.range(3, 30)} {hx(r.choice([b'', up[:40], up[:-1], up, b'GET / HTTP/1.1' + bytes([13, 10])]))}")
+        lines.append("close")
+        hgroups.append((cfg, sessions, lines))
+    res = run_groups(exe, hgroups, seed)
+    jq, jo = [], []
     for (cfg, sessions, lines), r in res:
         out = r.lines
+        pair = cfg.proto in ("pair0", "pair1")
         if r.rc != 0 or not out or out[-1] != "bye":
             done = len(out)
-            viol.append({"kind": "sanitizer report / crash / hang on ws://", "cfg": cfg.key, "rc": r.rc, "stderr": errtext(r.err),
-                         "lines": lines[:done + 1], "at": (lines[done] if done < len(lines) else lines[-1])[:300]})
+            kind = "hang (watchdog / timeout)" if (r.rc in (86, -999) or any(l.startswith("WATCHDOG") for l in out)) else \
+                   "sanitizer report / crash / unclean exit"
+            viol.append({"kind": kind, "cfg": cfg.key, "rc": r.rc, "stderr": errtext(r.err), "lines": lines[:done + 1],
+                         "at": (lines[done] if done < len(lines) else lines[-1])[:300], "all_lines": lines})
             stats["crashes"] += 1
         got = {p["id"]: p for p in (parse_sess(l) for l in out) if p}
         for l in out:
-            if l.startswith("open FAIL") or (l.startswith("flood") and "ctl=ok" not in l) or (l.startswith("close") and not l.startswith("close ok")):
+            if l.startswith("open FAIL") or l.startswith("ctl_connect FAIL") or (l.startswith("flood") and "ctl=ok" not in l) or \
+               (l.startswith("close") and not l.startswith("close ok")):
                 viol.append({"kind": "control connection / listener stopped working", "cfg": cfg.key, "line": l[:300], "lines": lines})
-        for s_ in sessions:
-            g = got.get(s_["id"])
+            if l.startswith("close ok"):
+                m = re.match(r"close ok add=(\d+) rem=(\d+) ctl_eof=(\d)", l)
+                if m and (m.group(1) != m.group(2) or m.group(3) != "1"):
+                    viol.append({"kind": "socket close left pipes or the control connection behind", "cfg": cfg.key, "line": l[:200], "lines": lines})
+        ctl_pipes = set()
+        for l in out:
+            m0 = re.match(r"open ok ctlpipe=(\d+)", l)
+            if m0:
+                ctl_pipes.add(int(m0.group(1)))
+        # attribution of deliveries by pipe id (a delivery may be logged after its session's line was printed)
+        owner_of, by_sess, stray = {}, {}, []
+        for sid_, g_ in got.items():
+            for p_ in g_["pipes"]:
+                owner_of[p_] = sid_
+        for l in out:
+            toks = l.split(" ")
+            for i in range(len(toks) - 3):
+                if toks[i] == "D" and toks[i + 1].isdigit():
+                    o_ = owner_of.get(int(toks[i + 1]))
+                    (by_sess.setdefault(o_, []) if o_ is not None else stray).append((toks[i + 2], toks[i + 3]))
+        if stray and not any(l.startswith("flood") and " D " in l for l in out):
+            viol.append({"kind": "delivery from a pipe no session owns", "cfg": cfg.key, "deliveries": stray[:4], "lines": lines})
+        for s in sessions:
+            g = got.get(s["id"])
             if not g:
                 continue
+            m = s["model"]
             stats["executed"] += 1
-            stats["ws_kinds"][s_["kind"]] = stats["ws_kinds"].get(s_["kind"], 0) + 1
-            mini = [lines[0], sess_line(s_), "close"]
-            if g["ctl"] != "ok":
-                viol.append({"kind": "control connection broken by a hostile session", "cfg": cfg.key, "session": s_, "ctl": g["ctl"], "lines": mini})
-            if not g["eof"]:
-                viol.append({"kind": "connection not released: nng did not close its side within 5 s after the peer's FIN", "cfg": cfg.key,
-                             "session": s_, "lines": mini})
-            obs = [b for (_, _, b) in g["deliv"]]
-            exp = [short_body(x.hex() if x else "-") for x in (s_["exp"] or [])]
-            if cfg.rcvnum and any((int(o[1:].split(":")[0]) if o.startswith("L") else (0 if o == "-" else len(o) // 2)) > cfg.rcvnum for o in obs):
-                viol.append({"kind": "delivered a message larger than NNG_OPT_RECVMAXSZ (ws)", "cfg": cfg.key, "session": s_, "lines": mini})
-            elif not is_subseq(obs, exp):
-                viol.append({"kind": "the application received something the session cannot justify (ws)", "cfg": cfg.key, "session": s_,
-                             "delivered": obs[:6], "allowed": exp[:6], "lines": mini})
-            elif obs != exp:
-                corr.append({"what": "ws deliveries differ from the expectation by construction", "cfg": cfg.key, "session": s_, "impl": obs[:6],
-                             "model": exp[:6]})
-    return len(groups)
+            stats["ws_sessions"] = stats.get("ws_sessions", 0) + 1
+            mo = "deliver" if m["deliv"] else ("upgrade-no-delivery" if m["up"] else ("status-" + ",".join(str(x) for x in m["st"]) if m["st"] else
+                                                                                      ("closed" if m["sclose"] else "waiting")))
+            h = stats["ws_kinds"].setdefault(s["kind"], {})
+            h[mo] = h.get(mo, 0) + 1
+            hist = stats["by"].setdefault(f"ws|{cfg.proto}|{s['kind']}", [0, 0, 0, 0])
+            hist[0] += 1
+            hist[1 + (0 if m["deliv"] else (2 if (m["sclose"] or m["wsclosed"] or m["pclose"] or (m["st"] and not m["up"])) else 1))] += 1
+            stats["modes"][s["mode"]] = stats["modes"].get(s["mode"], 0) + 1
+            mini = [lines[0]] + (["ctl_drop"] if pair and not s["busy"] else []) + [sess_line(s), "close"]
+            mine = by_sess.get(s["id"], [])
+            s["impl"] = mine
+            anomaly = pair and s["busy"] and (mine or g["ctl"] != "ok")
+            if anomaly:
+                stats["pair_second_connection_anomalies"] = stats.get("pair_second_connection_anomalies", 0) + 1
+            elif g["ctl"] != "ok":
+                viol.append({"kind": "control connection broken by a hostile session", "cfg": cfg.key, "session": s, "ctl": g["ctl"], "lines": mini})
+            if s["mode"] != "x" and not g["eof"]:
+                viol.append({"kind": "connection not released: nng did not close its side after the peer's FIN", "cfg": cfg.key, "session": s,
+                             "lines": mini})
+            if g["add"] > g["rem"] and cfg.proto in ("pull", "sub", "bus"):
+                # (REP reads nothing more until the application answers, so it cannot notice the end of the connection)
+                stats["ws_pipe_not_released"] = stats.get("ws_pipe_not_released", 0) + 1
+            if mine:
+                jqry = s["model_query"].split(" ")
+                jqry[6] = "0"
+                jq.append(" ".join(jqry) + " => 0 " + " ".join(f"D {h_} {b_}" for h_, b_ in mine)); jo.append((cfg, s, mini))
+            if anomaly:
+                continue
+            exp = [(h_, short_body(b_)) for h_, b_ in m["deliv"]]
+            obs = list(mine)
+            if cfg.raw and cfg.proto in ("rep", "bus"):
+                obs = [("00000000" + h_[8:], b_) for h_, b_ in obs]       # first header word: id of the delivering pipe
+            if not cfg.raw:
+                exp = [("-", b_) for _, b_ in exp]
+                obs = [("-", b_) for _, b_ in obs]
+            exact = s["mode"] in ("h", "i") and not pair
+            if exact and obs != exp:
+                corr.append({"what": "ws deliveries differ from the model", "cfg": cfg.key, "session": s, "model": exp[:8], "impl": obs[:8]})
+            elif not exact and not is_subseq(obs, exp):
+                corr.append({"what": "ws deliveries (reset / PAIR session) are not a subsequence of the model's", "cfg": cfg.key, "session": s,
+                             "model": exp[:8], "impl": obs[:8]})
+            elif not exact and obs != exp:
+                stats["lost_on_disconnect"] = stats.get("lost_on_disconnect", 0) + 1
+            if s["mode"] in ("h", "i") and g["rx"] != "-" or (s["mode"] in ("h", "i") and m["st"]):
+                sts, frames = parse_http_responses(b"" if g["rx"] == "-" else bytes.fromhex(g["rx"]))
+                for st in sts:
+                    stats["ws_status"][str(st)] = stats["ws_status"].get(str(st), 0) + 1
+                if sts != m["st"]:
+                    corr.append({"what": "ws: HTTP status sequence differs from the model", "cfg": cfg.key, "session": s, "model": m["st"], "impl": sts})
+                elif m["up"] and not (pair and s["busy"]):
+                    # frames the receiver wrote: the model's (CLOSE with its code, PONG) first; nng may add CLOSE frames when the pipe goes away
+                    # (a PONG may or may not get out before the connection goes away: only CLOSE codes are compared)
+                    mt = [(int(x[:2], 16) & 15, x) for x in m["tx"]]
+                    codes = [(op, pl[:2].hex()) for op, pl in frames if op == 8]
+                    want = [(op, x[4:8]) for op, x in mt if op == 8]
+                    if codes[:len(want)] != want:
+                        corr.append({"what": "ws: frames written by the receiver (CLOSE code / PONG) differ from the model", "cfg": cfg.key,
+                                     "session": s, "model": want, "impl": codes[:6]})
+    for a, (cfg, s, mini), q_ in zip(ask_lean("hostile-judge", jq), jo, jq):
+        stats["judged"] += 1
+        if a != "ok":
+            viol.append({"kind": "the application received something the specification forbids", "judge": a, "cfg": cfg.key,
+                         "session": s, "delivered": s.get("impl", [])[:8], "lines": mini, "judge_query": q_[:2000]})
+    return len(groups), sum(len(ss) for _, ss in groups)
 
 
 # ------------------------------------------------------------------ run
@@ -777,25 +1321,35 @@ def run(tier, seed, replay=None):
     default_rcvmax = int(m.group(1)) if m else 1 << 30
     quick = tier == "quick"
     stats = {"executed": 0, "crashes": 0, "judged": 0, "by": {}, "model_outcome": {}, "impl_outcome": {}, "modes": {}, "rcvmax": {},
-             "udp_kinds": {}, "ws_kinds": {}}
+             "udp_kinds": {}, "ws_kinds": {}, "ws_status": {}}
     viol, corr = [], []
     if not st.driver_ok:
         v.violation("driver", {"kind": "the Lean model/driver does not build", "broken": st.broken}, no_input=True)
         return v.finish()
 
+    udp_replay = ws_replay = None
     if replay:
         rp = json.load(open(replay))
         c = rp["config"]
-        cfg = Cfg(c["transport"], c["protocol"], c["raw"], c["rcvmax"], default_rcvmax)
+        cfg = Cfg(c["transport"], c["protocol"], c["raw"], c["rcvmax"], default_rcvmax if c["transport"] not in ("udp", "ws") else 1 << 30)
         sessions = []
-        for s in rp.get("sessions", []):
-            s = dict(s); s["chunks"] = [bytes.fromhex(x) for x in s["chunks"]]
-            sessions.append(s)
-        groups = [(cfg, sessions, None, tuple(rp["flood"]) if rp.get("flood") else None)]
-        if rp.get("flood"):
-            groups = [(cfg, sessions, None, (rp["flood"][0], bytes.fromhex(rp["flood"][1])))]
+        groups = []
+        if c["transport"] == "udp" and rp.get("sessions"):
+            udp_replay = [(cfg, [{"id": s_["id"], "kinds": s_["kinds"], "dgs": [(a_, bytes.fromhex(b_)) for a_, b_ in s_["datagrams"]],
+                                  "nsrc": s_.get("nsrc", 4), "busy": s_.get("busy", False)} for s_ in rp["sessions"]])]
+        elif c["transport"] == "ws" and rp.get("sessions"):
+            ws_replay = [(cfg, [dict(s_, chunks=[bytes.fromhex(x) for x in s_["chunks"]]) for s_ in rp["sessions"]])]
+        else:
+            for s in rp.get("sessions", []):
+                s = dict(s); s["chunks"] = [bytes.fromhex(x) for x in s["chunks"]]
+                sessions.append(s)
+            groups = [(cfg, sessions, None, tuple(rp["flood"]) if rp.get("flood") else None)]
+            if rp.get("flood"):
+                groups = [(cfg, sessions, None, (rp["flood"][0], bytes.fromhex(rp["flood"][1])))]
     else:
         groups = make_groups(seed, tier, default_rcvmax, 3000 if quick else 100000, 40 if quick else 600)
+        if "stream" in os.environ.get("C11_SKIP", ""):
+            groups = []
     # corpus: kept reproducers (raw harness lines); only crash / hang / control observables apply
     cdir = os.path.join(core.HERE, "corpus", PROP)
     cfiles = sorted(os.listdir(cdir)) if os.path.isdir(cdir) and not replay else []
@@ -808,15 +1362,20 @@ def run(tier, seed, replay=None):
         bad = None
         for attempt in range(3 if not path.endswith(".json") else 1):
             r = core.run_stream([exe], "\n".join(ls) + "\n", env=build.env(), timeout=300)
-            if r.rc != 0 or not r.lines or r.lines[-1] != "bye" or any("FAIL" in l for l in r.lines):
+            unreleased = [l for l in r.lines for m_ in [re.match(r"sess \S+ .* add=(\d+) rem=(\d+) ", l)]
+                          if ls[0].startswith("open ws") and m_ and m_.group(1) != m_.group(2)]
+            if r.rc != 0 or not r.lines or r.lines[-1] != "bye" or any("FAIL" in l for l in r.lines) or unreleased:
                 bad = r
                 break
         if bad is not None:
             viol.append({"kind": "sanitizer report / crash / unclean exit", "cfg": ls[0].split(" ")[1] + ":" + ls[0].split(" ")[2] + ":" + ls[0].split(" ")[4],
                          "rc": bad.rc, "stderr": errtext(bad.err), "lines": ls, "all_lines": ls, "at": os.path.basename(path),
-                         "failing_output": [l[:200] for l in bad.lines if "FAIL" in l][:3]})
+                         "failing_output": [re.sub(r"rx=\S+", "rx=..", l)[:200] for l in bad.lines
+                                            if "FAIL" in l or re.match(r"sess \S+ .* add=1 rem=0 ", l)][:3]})
             stats["crashes"] += 1
     if replay and cfiles:
+        groups = []
+    if udp_replay or ws_replay:
         groups = []
     groups = predict(groups)
     nsess = sum(len(g[1]) for g in groups)
@@ -824,21 +1383,32 @@ def run(tier, seed, replay=None):
     vi, co = evaluate(res, stats)
     viol += vi
     corr += co
-    extra_on = os.environ.get("C11_EXTRA", "")
-    if extra_on:
-        # EXPERIMENTAL (not part of the default run, see integration/C11.md (g)): SP/UDP datagram sessions and ws:// sessions
-        t1 = time.time()
-        nu = run_udp(exe, seed, tier, 360 if quick else 12000, stats, viol, corr) if "udp" in extra_on else 0
-        nw = run_ws(exe, seed, tier, 240 if quick else 8000, stats, viol, corr) if "ws" in extra_on else 0
-        core.log(PROP, f"udp: {nu} sockets, {stats.get('udp_sessions', 0)} datagram sessions, {stats.get('udp_delivered', 0)} payloads delivered; "
-                       f"ws: {nw} sockets, {sum(stats['ws_kinds'].values())} sessions; {time.time() - t1:.1f}s")
+    # SP/UDP datagram sessions (C11B) are part of every run; ws:// sessions (C11B) only with C11_EXTRA=ws — on the current tree they
+    # still hit two open findings now and then (see integration/C11B.md (e)).  C11_SKIP=stream,udp,ws leaves parts out (development).
+    skip = os.environ.get("C11_SKIP", "")
+    if "ws" not in os.environ.get("C11_EXTRA", ""):
+        skip += ",ws"
+    t1 = time.time()
+    nu = nw = nws = 0
+    if (not replay and "udp" not in skip) or udp_replay:
+        nu = run_udp(exe, seed, tier, 700 if quick else 24000, stats, viol, corr, udp_replay)
+    t2 = time.time()
+    if (not replay and "ws" not in skip) or ws_replay:
+        nw, nws = run_ws(exe, seed, tier, 540 if quick else 18000, 6 if quick else 90, stats, viol, corr, ws_replay)
+    core.log(PROP, f"udp: {nu} sockets, {stats.get('udp_sessions', 0)} sessions, {stats.get('udp_datagrams', 0)} datagrams, "
+                   f"{stats.get('udp_delivered', 0)} payloads delivered, {stats.get('udp_flood_senders', 0)} flood senders ({t2 - t1:.1f}s); "
+                   f"ws: {nw} sockets, {stats.get('ws_sessions', 0)} sessions, statuses {stats['ws_status']} ({time.time() - t2:.1f}s)")
     core.log(PROP, f"REAL: {len(groups)} sockets, {nsess} hostile sessions ({stats['executed']} executed, {stats['judged']} with deliveries "
                    f"judged); violations {len(viol)}, model differences {len(corr)}, crashes/hangs {stats['crashes']}; "
                    f"model outcomes {stats['model_outcome']}")
     from collections import Counter
     core.log(PROP, "violation kinds: " + json.dumps(Counter((x["kind"][:50] + "|" + x.get("cfg", "").split(":")[0]) for x in viol).most_common(12)))
-    for c_ in [c for c in corr if "differ" in c["what"]][:int(os.environ.get("C11_DEBUG", "0"))]:
-        core.log(PROP, "DIFF " + json.dumps({k: (strip_session(w) if k == "session" else w) for k, w in c_.items()})[:900])
+    for c_ in corr[:int(os.environ.get("C11_DEBUG", "0"))]:
+        ses = c_.get("session", {})
+        core.log(PROP, "DIFF " + json.dumps({"what": c_["what"], "cfg": c_.get("cfg"), "id": ses.get("id"), "kind": ses.get("kind") or ses.get("kinds"),
+                                             "mode": ses.get("mode"), "busy": ses.get("busy"), "model": c_.get("model"), "impl": c_.get("impl"),
+                                             "m": ses.get("model") if isinstance(ses.get("model"), list) else None,
+                                             "wt": c_.get("timed_out_waits")}, default=str)[:1100])
     core.log(PROP, "difference kinds: " + json.dumps(Counter((x["what"][:50] + "|" + x.get("cfg", "").split(":")[0]) for x in corr).most_common(12)))
     found_input = False
     seen = set()
@@ -861,6 +1431,9 @@ def run(tier, seed, replay=None):
             payload["flood"] = [int(m.group(1)), "" if m.group(2) == "-" else m.group(2)]
         v.violation(re.sub(r"[^a-z0-9]+", "-", x["kind"].lower())[:40] + f"-{len(v.violations)}", payload)
         found_input = True
+    if stats.get("ws_pipe_not_released"):
+        v.known_finding(f"ws-pipe-not-released: in {stats['ws_pipe_not_released']} ws:// session(s) nng closed the TCP connection after the peer's "
+                        "FIN but the pipe was not removed within the wait (it goes away when the socket closes); see integration/C11B.md (e)")
     if stats.get("pair_second_connection_anomalies"):
         v.known_finding(f"observation outside C11: in {stats['pair_second_connection_anomalies']} session(s) a PAIR socket served a second "
                         "connection while its peer was connected (exclusivity is property C08; what it delivered was still judged here)")
@@ -889,14 +1462,22 @@ def run(tier, seed, replay=None):
         "rule": "sessions from splitmix64(seed,C11,tier,kind,config,i): valid sessions (Lean-shaped frames for the protocol under test), "
                 "mutations " + ",".join(MUTATIONS) + "; truncation of valid sessions at every byte offset; random write cuts; "
                 "end modes h (FIN, wait for nng's close) / x (RST) / i (idle during a control exchange); flood of 3-40 connections per "
-                "socket; nng-side short reads by the NNG_VERIF clamp in every second process; rcvmax 0 / 64 / default",
+                "socket; nng-side short reads by the NNG_VERIF clamp in every second process; rcvmax 0 / 64 / default.  SP/UDP: sessions of "
+                "raw datagrams from up to 4 senders against a udp:// listener (" + ",".join(sorted(set(UDP_KINDS))) + "; every opcode truncated at "
+                "every header length; floods from 3-40 source ports), waits = the Lean association model's prediction (answers, pipe events, "
+                "deliveries).  ws://: raw HTTP upgrade requests (" + ",".join(WS_HTTP_KINDS) + ") and frame streams built with the C16 Lean "
+                "encoder (" + ",".join(sorted(set(WS_FRAME_KINDS))) + "), truncation of valid sessions at every byte offset, floods; prediction "
+                "= HttpConn model + server/upgrade decisions + Ws.rx + protocol callback (Lean `wss`)",
         "real": {"sockets": len(groups), "sessions": nsess, "executed": stats["executed"], "judged_with_deliveries": stats["judged"],
                  "violations": len(viol), "model_differences": len(corr), "crashes_or_hangs": stats["crashes"],
                  "model_outcome": stats["model_outcome"], "impl_outcome": stats["impl_outcome"], "end_modes": stats["modes"],
                  "rcvmax": stats["rcvmax"], "pair_lost_on_disconnect": stats.get("lost_on_disconnect", 0),
                  "pair_second_connection_anomalies": stats.get("pair_second_connection_anomalies", 0),
-                 "udp": {"sessions": stats.get("udp_sessions", 0), "payloads_delivered": stats.get("udp_delivered", 0), "datagram_kinds": stats["udp_kinds"]},
-                 "ws": {"session_kinds": stats["ws_kinds"]},
+                 "udp": {"sessions": stats.get("udp_sessions", 0), "datagrams": stats.get("udp_datagrams", 0),
+                         "payloads_delivered": stats.get("udp_delivered", 0), "flood_senders": stats.get("udp_flood_senders", 0),
+                         "datagram_kind -> model decision": stats["udp_kinds"]},
+                 "ws": {"sessions": stats.get("ws_sessions", 0), "http_status_seen": stats["ws_status"],
+                        "pipe_not_released": stats.get("ws_pipe_not_released", 0), "session_kind -> model outcome": stats["ws_kinds"]},
                  "histogram_transport|protocol|mutation -> [sessions, deliver, drop, disconnect]": stats["by"]},
         "samples": [sess_line(groups[0][1][0])[:300], groups[0][2][0]] if groups and groups[0][1] else [],
         "extract_changed": st.extract_changed,
